@@ -82,7 +82,14 @@ class World:
     async def start_server(self):
         self.sfm._PROGRAM_PATH = self.sdir
         self.connector._sse_service_manager = self.sm.ServicesManager()
-        self.server = await self.websockets.serve(self.connector.handler, "127.0.0.1", 0, max_size=None)
+        for attempt in range(50):
+            try:
+                self.server = await self.websockets.serve(self.connector.handler, "127.0.0.1", 0, max_size=None)
+                break
+            except OSError:         # ephemeral ports momentarily exhausted by other runs on the machine
+                if attempt == 49:
+                    raise
+                await asyncio.sleep(0.2)
         self.port = self.server.sockets[0].getsockname()[1]
         self.global_config.ClientConfig.SERVER_URI = "ws://127.0.0.1:%d" % self.port
 
